@@ -101,8 +101,19 @@ def direct(seed, tier, model, stats):
                             fails.append({"what": f"{lab} does not restore bin {k} of a unit impulse: |diff| {e:.3e} (kappa {kappa:.2e})", "call": label})
                             break
                 continue
-            fwd = lambda x: ripasso.applyRCFilter(x, SR, kind, fc, order, DCgain=dc)
-            inv = lambda x: ripasso.applyInverseRCFilter(x, SR, kind, fc, order, DCgain=dc)
+            onp = r.choice([np.int64, np.int32])(order) if (N + order) % 2 == 0 else order      # an order taken from an integer array
+            fwd = lambda x: ripasso.applyRCFilter(x, SR, kind, fc, onp, DCgain=dc)
+
+            def inv(x, _first=[True]):
+                y = ripasso.applyInverseRCFilter(x, SR, kind, fc, onp, DCgain=dc)
+                if _first[0] and isinstance(y, np.ndarray) and y.flags.writeable:
+                    # what the compensation returns belongs to the caller: the same call once more, after the first result was
+                    # normalised in place, gives the result proper
+                    _first[0] = False
+                    y *= 0.5
+                    y -= 1.0
+                    y = ripasso.applyInverseRCFilter(x, SR, kind, fc, onp, DCgain=dc)
+                return y
             for nm, x in signals(r, N):
                 tested["roundtrips"] += 2
                 if (N + order) % 3 == 0 and not isinstance(x, list) and x.dtype.kind == "f":
